@@ -1,15 +1,18 @@
 #!/bin/sh
-# tools/eval_prop.sh CXX  — evaluate mutants A and B of one property sequentially, then restore evidence for /repo
+# tools/eval_prop.sh CXX [labels]  — evaluate the seeded changes <labels> (default "A B") of one property sequentially,
+# then restore evidence for /repo
 cd "$(dirname "$0")/.."
+P="$1"; shift
+L="${*:-A B}"
 mkdir -p /tmp/lw/eval
-for w in A B; do
-  python3 tools/eval_mutant.py "$1" $w > /tmp/lw/eval/$1-$w.json 2>&1
+for w in $L; do
+  python3 tools/eval_mutant.py "$P" $w > /tmp/lw/eval/$P-$w.json 2>&1
 done
-./check "$1" quick > /tmp/lw/eval/$1-restore.txt 2>&1
-python3 - "$1" <<'PY'
+./check "$P" quick > /tmp/lw/eval/$P-restore.txt 2>&1
+python3 - "$P" $L <<'PY'
 import json,sys
 p=sys.argv[1]
-for w in 'AB':
+for w in sys.argv[2:]:
     try:
         d=json.load(open(f'/tmp/lw/eval/{p}-{w}.json'))
         print(p,w,{k:d.get(k) for k in ('confirmed','demo_passes_without','existing_tests_pass','demo_fails_with','detected','detected_with_input','check_rc')})
